@@ -60,6 +60,9 @@ func (obj Symbol) needPipes() bool {
 	case c == '+' || c == '-' || ('0' <= c && c <= '9'):
 		// Without bars a name spelled like a number is read as a number.
 		return numberLike(bytes.ToLower([]byte(obj)))
+	case c == '@':
+		// The reader tries a token that starts with @ as a time first.
+		return true
 	case c == '.':
 		// A lone dot marks a dotted pair.
 		return len(obj) == 1
